@@ -96,7 +96,10 @@ func genSyscallRecNamed(rt *rapid.T, tk *tokens, name string) kenc.Rec {
 	if rapid.Bool().Draw(rt, "subj") {
 		f = append(f, kenc.P("subj", tk.s("u")+":"+tk.s("r")+":"+tk.s("t")+":"+tk.s("s")+":"+tk.s("c")))
 	}
-	switch rapid.IntRange(0, 3).Draw(rt, "keykind") {
+	switch rapid.IntRange(0, 4).Draw(rt, "keykind") {
+	case 4: // the same key more than once (-k exec -k exec -k other), adjacent and apart
+		k := tk.s("kd")
+		f = append(f, kenc.F{K: "key", V: []byte(k + "\x01" + k + "\x01" + tk.s("ke") + "\x01" + k), Enc: kenc.Untrusted})
 	case 0:
 		f = append(f, kenc.P("key", "(null)"))
 	case 1:
